@@ -154,6 +154,7 @@ func main() {
 	r.Require("ipv4_grid_addresses", 20736)
 	r.Require("ipv4_stratified_samples", 1<<22)
 	r.Require("checkptr_cases", 40)
+	r.Require("stream_partly_consumed_standard_reader", 5000)
 	r.Require("digest_stream_after_failed_stream", 10000)
 	// strength.go
 	r.Require("history_cases", 2500)
